@@ -50,4 +50,27 @@ def cdTickAll (now : Nat) : List CdItem → List Nat → List CdItem × List Nat
     let rest := cdTickAll now is pub'
     (r.1 :: rest.1, rest.2)
 
+/-- the decision of supla_esp_gpio_relay_set_duration_timer for one channel -/
+structure DurIn where
+  time2 : Nat        -- supla_esp_cfg.Time2[channel]; 0 = no staircase time (or a channel outside the tables)
+  newValue : Nat     -- the requested relay value
+  dur : Nat          -- the requested duration (ms)
+  left : Nat         -- supla_esp_state.Time2Left[channel] at the call
+  cdFlag : Bool      -- SUPLA_CHANNEL_FLAG_COUNTDOWN_TIMER_SUPPORTED of the relay's channel
+  deriving Repr, DecidableEq
+
+/-- the duration after the staircase rule: OFF cancels, ON runs the configured time unless the request repeats the published
+    remaining time (that is how the restore after a restart asks for the rest of a staircase run) -/
+def DurIn.eff (i : DurIn) : Nat :=
+  if i.time2 > 0 then
+    if i.newValue = 0 then 0
+    else if i.dur = 0 ∨ i.left ≠ i.dur then i.time2 else i.dur
+  else i.dur
+
+/-- a countdown item is armed -/
+def DurIn.arms (i : DurIn) : Bool := decide (i.eff > 0) && (i.newValue == 1 || i.cdFlag)
+
+/-- the value the item switches to -/
+def DurIn.target (i : DurIn) : Nat := if i.newValue ≠ 0 then 0 else 1
+
 end SuplaVerif
